@@ -64,7 +64,12 @@ type Document struct {
 	// pointerCache is setup once when the document is created.
 	pointerCache sync.Map // map[string]Node
 
-	families FamilyNodes
+	// families is filled by the first call of Families. familiesMutex guards
+	// it: comparing individuals or publishing with more than one job calls
+	// Families from several goroutines. While it is held only the root nodes
+	// of the document are looked at.
+	familiesMutex sync.Mutex
+	families      FamilyNodes
 
 	// familyLinksVersion is increased whenever something changes that the
 	// families and spouses remembered by the individuals are derived from: the
@@ -139,6 +144,9 @@ func (doc *Document) NodeByPointer(ptr string) Node {
 
 // Families returns the family entities in the document.
 func (doc *Document) Families() (families FamilyNodes) {
+	doc.familiesMutex.Lock()
+	defer doc.familiesMutex.Unlock()
+
 	if doc.families != nil {
 		return doc.families
 	}
@@ -217,7 +225,9 @@ func (doc *Document) addPointerToCache(node Node) {
 	// Clear cache.
 	switch node.Tag() {
 	case TagFamily:
+		doc.familiesMutex.Lock()
 		doc.families = nil
+		doc.familiesMutex.Unlock()
 	}
 }
 
@@ -286,7 +296,9 @@ func (doc *Document) SetNodes(nodes Nodes) {
 	doc.nodes = nodes
 
 	// Forget everything that was derived from the previous records.
+	doc.familiesMutex.Lock()
 	doc.families = nil
+	doc.familiesMutex.Unlock()
 	doc.buildPointerCache()
 	doc.familyLinksVersion++
 }
@@ -348,7 +360,9 @@ func (doc *Document) DeleteNode(node Node) (didDelete bool) {
 
 	if didDelete {
 		// Forget everything that was derived from the removed record.
+		doc.familiesMutex.Lock()
 		doc.families = nil
+		doc.familiesMutex.Unlock()
 		doc.buildPointerCache()
 		doc.familyLinksVersion++
 	}
